@@ -96,6 +96,13 @@ def run(case):
                 if not isinstance(r, numpy.ndarray):
                     viols.append(V("C03:%s:not-array" % cmd, "result is %r" % type(r).__name__, **tag))
                     continue
+                # the missing cells of the INPUTS (results of other commands) must be exactly what they were
+                for i_, (a_, c_) in enumerate(zip(arrays, cols)):
+                    now = numpy.ma.getmaskarray(a_).ravel().tolist()
+                    if now != [x is None for x in c_]:
+                        viols.append(V("C03:%s:input-missing-changed" % cmd, "%s changed the missing cells of its input %d from %r to %r" % (
+                            cmd, i_, [x is None for x in c_], now), **tag))
+                        break
                 rshape, cells, is_ma = D.result_cells(r)
                 if len(cells) != size:
                     viols.append(V("C03:%s:size-changed" % cmd, "result has %d cells for %d input cells" % (len(cells), size), **tag))
